@@ -355,6 +355,39 @@ def explore(iname, sysname, ctor_mon, depth, res=None):
             if d:
                 rule = "repeat-on-same-object" if not pre else "depends-on-previous-calls"
                 add(rule, "solve(f1, save=%s, monitors=%s) after %d earlier call(s) differs from the same call on a fresh solver: %s" % (sv, mk, len(hist) - 1, d), hist)
+    # deep traces (not exhaustive at that depth, a supplement to the tree above): three fixed orders of ALL disturbing letters, cut after 5, 9 and
+    # 12 operations, then a probe - a defect that needs a fourth or a tenth call on the same object to show
+    order = list(range(len(DISTURB)))
+    paths = [order, order[::-1], [0, 6, 2, 7, 8, 9, 3, 6, 10, 7, 11, 6]]
+    for path in paths:
+        if DISTURB[path[0]]["op"] == "restart":
+            path = [0] + path
+        for L in (5, 9, len(path)):
+            hist0 = [DISTURB[i] for i in path[:L]]
+            for (sv, mk) in (("none", "none"), ("all", "mix")):
+                want = fresh.get((sv, mk))
+                if want is None:
+                    continue
+                probe = {"op": "solve", "f": "b", "save": sv, "maxit": 3, "mon": mk}
+                hist = hist0 + [probe]
+                try:
+                    R, obs = run_hist(hist)
+                except core.CallTimeout:
+                    add("non-termination", "history did not return", hist)
+                    continue
+                except Exception as e:
+                    add("exception", "history raised %r" % (e,), hist)
+                    continue
+                if obs is None:
+                    continue
+                if res is not None:
+                    res.evals += 1
+                    res.traces += 1
+                    res.nontrivial += 1
+                    res.census["deep-traces"] += 1
+                d = first_diff(obs[-1], want)
+                if d:
+                    add("depends-on-previous-calls", "solve(f1, save=%s, monitors=%s) after %d earlier calls differs from the same call on a fresh solver: %s" % (sv, mk, len(hist) - 1, d), hist)
     # (d) restart: solve N then restart M == solve N+M  (same object), with and without monitors, after a disturbing prefix
     for pre in [()] + [(i,) for i in range(len(DISTURB)) if DISTURB[i]["op"] == "solve"]:
         for N, M, mk, fk in itertools.product((1, 2, 3), (1, 2), ("none", "mix", "f1"), ("a", "b")):
